@@ -218,7 +218,16 @@ def run(case, out):
                 _rules([mk(r, case.get("int_idx")) for r in case["rules"]], optim), lib_start))
             if ig is FAILED:
                 break
-            res = out.call("intersection", ig.intersection, GF.build(fa_case))
+            # the same product through the method, `ig & automaton` and `fst & ig`.  (A Regex operand obtained from
+            # `to_regex()` was tried and withdrawn: its Thompson automaton has so many states that the cubic product
+            # exhausts the step budget -- cost, which C17 does not state, not a wrong verdict.)
+            operand = GF.build(fa_case)
+            if optim == 0:
+                res = out.call("and", lambda: ig & operand)
+            elif optim == 3:
+                res = out.call("fst.and", lambda: operand.to_fst() & ig)
+            else:
+                res = out.call("intersection", ig.intersection, operand)
             if res is FAILED:
                 break
             # emptiness of the product is exponential in general: a slow answer is inconclusive, not a verdict
